@@ -133,3 +133,151 @@ Proof.
   split; [vm_compute; reflexivity|]. split; [vm_compute; reflexivity|].
   intros [H _]. vm_compute in H. discriminate.
 Qed.
+
+(** * Isolation of concurrent transfers (C12) *)
+From Tftp Require Import Model.Types Model.Consts Model.Codec Model.Window Model.Worker Model.Server Proofs.CodecP Proofs.SpecP.
+
+Lemma y_get_put_other : forall l a b x, a <> b -> y_get a (y_put b x l) = y_get a l.
+Proof.
+  induction l as [|[k y] l IH]; intros a b x H; cbn [y_put y_get].
+  - destruct (N.eqb_spec b a); [congruence|reflexivity].
+  - destruct (N.eqb_spec k b) as [->|Hn]; cbn [y_get].
+    + destruct (N.eqb_spec b a); [congruence|reflexivity].
+    + destruct (k =? a); [reflexivity|apply IH; exact H].
+Qed.
+
+Lemma y_get_put_same : forall l a x, y_get a (y_put a x l) = Some x.
+Proof.
+  induction l as [|[k y] l IH]; intros a x; cbn [y_put y_get].
+  - rewrite N.eqb_refl. reflexivity.
+  - destruct (N.eqb_spec k a) as [->|Hn]; cbn [y_get]; [rewrite N.eqb_refl; reflexivity|].
+    destruct (N.eqb_spec k a); [congruence|apply IH].
+Qed.
+
+Lemma apply_action_other : forall root src raw ws a i, i <> src ->
+  y_get i (fst (apply_action root src raw ws a)) = y_get i ws /\
+  Forall (fun d => fst d = src) (snd (apply_action root src raw ws a)).
+Proof.
+  intros root src raw ws a i Hi. destruct a as [l p|path o rep chk|path o rep cl|p]; cbn [apply_action].
+  - cbn [fst snd]. split; [reflexivity|]. constructor; [reflexivity|constructor].
+  - destruct (stat root path) as [[c|es]|]; try (cbn [fst snd]; split; [reflexivity|constructor]).
+    destruct (send_init _ c) as [s0 out0]. cbn [fst snd]. split; [apply y_get_put_other; exact Hi|].
+    rewrite Forall_map. apply Forall_forall. intros; reflexivity.
+  - cbn [fst snd]. split; [apply y_get_put_other; exact Hi|constructor].
+  - destruct (y_get src ws) as [[w inbox]|]; cbn [fst snd]; (split; [|constructor]); [apply y_get_put_other; exact Hi|reflexivity].
+Qed.
+
+Lemma apply_actions_other : forall root src raw acts ws i, i <> src ->
+  y_get i (fst (apply_actions root src raw ws acts)) = y_get i ws /\
+  Forall (fun d => fst d = src) (snd (apply_actions root src raw ws acts)).
+Proof.
+  intros root src raw acts. induction acts as [|a r IH]; intros ws i Hi; cbn [apply_actions].
+  - split; [reflexivity|constructor].
+  - destruct (apply_action root src raw ws a) as [ws1 o1] eqn:E1.
+    destruct (apply_actions root src raw ws1 r) as [ws2 o2] eqn:E2. cbn [fst snd].
+    destruct (apply_action_other root src raw ws a i Hi) as [A1 A2]. rewrite E1 in A1, A2. cbn [fst snd] in A1, A2.
+    destruct (IH ws1 i Hi) as [B1 B2]. rewrite E2 in B1, B2. cbn [fst snd] in B1, B2.
+    split; [congruence|apply Forall_app; split; assumption].
+Qed.
+
+Lemma work_dest : forall w e src, Forall (fun d => fst d = src) (snd (work w e src)).
+Proof.
+  intros w e src. destruct w as [c s|c r]; cbn [work].
+  - destruct (send_step c s e) as [s' out]. cbn [snd]. rewrite Forall_map. apply Forall_forall. intros; reflexivity.
+  - destruct (recv_step c r e) as [r' out]. cbn [snd]. rewrite Forall_map. apply Forall_forall. intros; reflexivity.
+Qed.
+
+(** Whatever happens for another endpoint - its requests, its data, its worker's steps and
+    time-outs, garbage it sends - leaves the worker of endpoint [i] (its state and its inbox)
+    exactly as it was, and every datagram the server emits in such a step is addressed to that
+    other endpoint: nothing of [i]'s transfer leaks, nothing reaches [i]. *)
+Theorem foreign_step_preserves_worker : forall cfg mem root y l i, label_src l <> i ->
+  y_get i (y_ws (fst (sys_step cfg mem root y l))) = y_get i (y_ws y) /\
+  Forall (fun d => fst d = label_src l) (snd (sys_step cfg mem root y l)).
+Proof.
+  intros cfg mem root y l i Hi. destruct l as [src raw|src raw|src|src]; cbn [label_src] in Hi; cbn [sys_step label_src].
+  - destruct (listen_step cfg mem root (y_ls y) src raw) as [[ls' acts]|e| |]; try (cbn [fst snd]; split; [reflexivity|constructor]).
+    destruct (apply_actions root src raw (y_ws y) acts) as [ws' out] eqn:E. cbn [fst snd y_ws].
+    destruct (apply_actions_other root src raw acts (y_ws y) i ltac:(congruence)) as [A B]. rewrite E in A, B. exact (conj A B).
+  - destruct (y_get src (y_ws y)) as [[w inbox]|]; cbn [fst snd y_ws]; (split; [|constructor]); [apply y_get_put_other; congruence|reflexivity].
+  - destruct (y_get src (y_ws y)) as [[w [|raw inbox]]|]; try (cbn [fst snd]; split; [reflexivity|constructor]).
+    destruct (work w (EvDgram 0 raw) src) as [w' out] eqn:E. cbn [fst snd y_ws]. split; [apply y_get_put_other; congruence|].
+    pose proof (work_dest w (EvDgram 0 raw) src) as D. rewrite E in D. exact D.
+  - destruct (y_get src (y_ws y)) as [[w [|raw inbox]]|]; try (cbn [fst snd]; split; [reflexivity|constructor]).
+    destruct (work w (EvFail (wtimeout w)) src) as [w' out] eqn:E. cbn [fst snd y_ws]. split; [apply y_get_put_other; congruence|].
+    pose proof (work_dest w (EvFail (wtimeout w)) src) as D. rewrite E in D. exact D.
+Qed.
+
+(** Run a label list; collect what is sent to each endpoint. *)
+Fixpoint sys_run (cfg : srvcfg) (mem : N) (root : node) (y : sys) (ls : list label) : sys * list (N * bytes) :=
+  match ls with
+  | [] => (y, [])
+  | l :: r => let '(y1, o1) := sys_step cfg mem root y l in
+              let '(y2, o2) := sys_run cfg mem root y1 r in (y2, o1 ++ o2)
+  end.
+
+(** Any interleaving of steps of other endpoints - any number of clients, any schedule - leaves
+    the worker of [i] untouched and sends nothing to [i]. *)
+Theorem foreign_run_preserves_worker : forall cfg mem root ls y i, Forall (fun l => label_src l <> i) ls ->
+  y_get i (y_ws (fst (sys_run cfg mem root y ls))) = y_get i (y_ws y) /\
+  Forall (fun d => fst d <> i) (snd (sys_run cfg mem root y ls)).
+Proof.
+  intros cfg mem root ls. induction ls as [|l r IH]; intros y i H; cbn [sys_run].
+  - split; [reflexivity|constructor].
+  - inversion H as [|? ? Hl Hr]; subst.
+    destruct (sys_step cfg mem root y l) as [y1 o1] eqn:E1. destruct (sys_run cfg mem root y1 r) as [y2 o2] eqn:E2.
+    cbn [fst snd]. destruct (foreign_step_preserves_worker cfg mem root y l i Hl) as [A B]. rewrite E1 in A, B. cbn [fst snd] in A, B.
+    destruct (IH y1 i Hr) as [C D]. rewrite E2 in C, D. cbn [fst snd] in C, D.
+    split; [congruence|]. apply Forall_app. split; [|exact D].
+    eapply Forall_impl; [|exact B]. intros d Hd. cbn beta in Hd. congruence.
+Qed.
+
+(** A worker's own step depends on nothing but its own state and inbox (by construction of
+    [sys_step]: stated as a computation rule). *)
+Theorem own_step_is_local : forall cfg mem root y i w raw inbox,
+  y_get i (y_ws y) = Some (w, raw :: inbox) ->
+  sys_step cfg mem root y (LWork i) =
+    (mk_sys (y_ls y) (y_put i (fst (work w (EvDgram 0 raw) i), inbox) (y_ws y)), snd (work w (EvDgram 0 raw) i)).
+Proof.
+  intros cfg mem root y i w raw inbox H. cbn [sys_step]. rewrite H.
+  destruct (work w (EvDgram 0 raw) i) as [w' out]. reflexivity.
+Qed.
+
+(** Well-formed non-request packets from an endpoint that owns no transfer, sent to the
+    listening port: answered with ERROR 4 from the listening port; nothing else happens. *)
+Theorem foreign_nonrequest_answered : forall cfg mem root st src raw p, listener_inv st -> 65468 <= mem ->
+  memN src (l_clients st) = false ->
+  decode (takeN ((if v_single cfg then l_largest st else max_request_packet_size) + 4) raw) = Ok p ->
+  (forall f m os, p <> Rrq f m os) -> (forall f m os, p <> Wrq f m os) ->
+  listen_step cfg mem root st src raw = Ok (st, [AReply true (Error EIllegalOperation msg_invalid_request)]).
+Proof.
+  intros cfg mem root st src raw p Hi Hm Hc Hd Hr Hw. unfold listen_step.
+  set (size := if v_single cfg then l_largest st else max_request_packet_size) in *.
+  assert (Hs : size + 4 <= 65468).
+  { unfold size. destruct (v_single cfg); [unfold listener_inv, max_blk in Hi; lia|unfold max_request_packet_size; lia]. }
+  destruct (N.ltb_spec isize_max (size + 4)); [unfold isize_max in *; lia|].
+  destruct (N.ltb_spec mem (size + 4)); [lia|]. rewrite Hd.
+  destruct p as [f m os|f m os|n d|n|c m|os]; try (exfalso; eapply Hr; reflexivity); try (exfalso; eapply Hw; reflexivity);
+    rewrite Hc, andb_false_r; reflexivity.
+Qed.
+
+(** Single-port mode: a non-request packet is handed to the worker that owns its source
+    address - routing is by source, never by content. *)
+Theorem routing_by_source : forall cfg mem root st src raw p, listener_inv st -> 65468 <= mem ->
+  v_single cfg = true -> memN src (l_clients st) = true ->
+  decode (takeN (l_largest st + 4) raw) = Ok p ->
+  (forall f m os, p <> Rrq f m os) -> (forall f m os, p <> Wrq f m os) ->
+  listen_step cfg mem root st src raw = Ok (st, [ARoute p]).
+Proof.
+  intros cfg mem root st src raw p Hi Hm Hs Hc Hd Hr Hw. unfold listen_step. rewrite Hs.
+  assert (Hsz : l_largest st + 4 <= 65468) by (unfold listener_inv, max_blk in Hi; lia).
+  destruct (N.ltb_spec isize_max (l_largest st + 4)); [unfold isize_max in *; lia|].
+  destruct (N.ltb_spec mem (l_largest st + 4)); [lia|]. rewrite Hd.
+  destruct p as [f m os|f m os|n d|n|c m|os]; try (exfalso; eapply Hr; reflexivity); try (exfalso; eapply Hw; reflexivity);
+    rewrite Hc; reflexivity.
+Qed.
+
+(** The size of the shared receive buffer - the one thing other clients' requests can change -
+    does not matter for a datagram that fits: whatever others negotiated, it is decoded alike. *)
+Theorem buffer_growth_harmless : forall (raw : bytes) a b, lenN raw <= a + 4 -> a <= b -> takeN (b + 4) raw = takeN (a + 4) raw.
+Proof. intros raw a b H1 H2. rewrite !Proofs.SpecP.takeN_all by lia. reflexivity. Qed.
